@@ -13,7 +13,7 @@ import (
 // from their own bytes, whatever the listener reads after them: a pooled datagram
 // buffer is not reused while its session has not been consumed.
 //
-//verif:harness name=H06h-bind-to-device tier=quick,thorough bounds="2..3 datagrams of different clients (symbolic IDs, names of different lengths) read by interfaceListener.readUDP one after another, then consumed from the chanPacketConn in order; the buffer pool hands released buffers back" reach=done,three maxpaths=20000 switches=0
+//verif:harness name=H06h-bind-to-device tier=quick,thorough bounds="2..3 datagrams of different clients (symbolic IDs, names of different lengths) read by interfaceListener.readUDP one after another, then consumed from the chanPacketConn in order and answered; then a longer datagram; the buffer pool hands released buffers back" reach=done,three maxpaths=20000 switches=0
 //verif:assume symbolic build: readPacketSession (recvmsg + control-message parsing) is a stub that fills the buffer it is given; native replay uses a loopback UDP socket with IP_RECVORIGDSTADDR
 func VerifC06BindToDevice() {
 	verifPoolMode(1)
@@ -44,6 +44,23 @@ func VerifC06BindToDevice() {
 		verifAssert("queued-session-belongs-to-its-sender", port == env.clientPort(i))
 		verifAssert("queued-datagram-carries-its-own-id-and-question", m.Id == ids[i] && len(m.Question) == 1 && m.Question[0].Name == names[i] && m.Question[0].Qtype == qts[i])
 	}
+	// the sessions are answered, which gives their buffers back to the pool; a longer
+	// query arriving afterwards is received whole
+	for i := 0; i < n; i++ {
+		verifAssert("response-written", env.respond(i) == nil)
+	}
+	long := &dns.Msg{}
+	long.SetQuestion("a-much-longer-name-than-before.example.org.", dns.TypeHTTPS)
+	long.Id = nondetU16()
+	long.SetEdns0(1232, true)
+	lb, lerr := long.Pack()
+	verifAssume(lerr == nil)
+	verifAssert("datagram-read", env.deliver(0, lb) == nil)
+	buf := make([]byte, 512)
+	k, _, cerr := env.consume(buf)
+	verifAssert("session-consumed", cerr == nil)
+	m := &dns.Msg{}
+	verifAssert("longer-datagram-after-a-recycled-buffer-is-received-whole", cerr == nil && k == len(lb) && m.Unpack(buf[:k]) == nil && m.Id == long.Id && len(m.Question) == 1 && m.Question[0].Name == long.Question[0].Name && m.IsEdns0() != nil)
 	if n == 3 {
 		verifReach("three")
 	}
